@@ -200,11 +200,13 @@ theorem genPca_eq (np : ND A) (inexact writeable : Bool) (X : A) (centre inplace
     genPca np inexact writeable X centre inplace eps = pcaPlan np X centre eps := by
   simp only [genPca, pcaPlan, ND.symm]
   repeat' split
-  all_goals simp_all
+  all_goals (try simp_all)
+  all_goals (try omega)
 
 theorem genPcacov_eq (np : ND A) (C : A) (isinverse : Bool) (eps : Rat) :
     genPcacov np C isinverse eps = pcacovPlan np C isinverse eps := by
   simp only [genPcacov, pcacovPlan, ND.symm]
   repeat' split
-  all_goals simp_all
+  all_goals (try simp_all)
+  all_goals (try omega)
 end MenpoModel.C10.GenProps
